@@ -285,6 +285,16 @@ func auditLines(path string) (records []map[string]any, badLines []string) {
 		dec := json.NewDecoder(strings.NewReader(line))
 		if err := dec.Decode(&m); err != nil || dec.More() {
 			badLines = append(badLines, line)
+			// a torn fragment of a failed append may precede a complete
+			// record on the same line: recover the complete suffix
+			for i := strings.LastIndex(line, `{"`); i > 0; i = strings.LastIndex(line[:i], `{"`) {
+				var m2 map[string]any
+				if json.Unmarshal([]byte(line[i:]), &m2) == nil {
+					m2["_after_fragment"] = true
+					records = append(records, m2)
+					break
+				}
+			}
 			continue
 		}
 		records = append(records, m)
